@@ -99,6 +99,10 @@ func (t *Ty) Sexp() string {
 		return "(err)"
 	case "tup":
 		return "(tup " + list(t.E) + ")"
+	case "tp": // a type parameter: reserved id, underlying type = its constraint interface (tparam.go)
+		return fmt.Sprintf("(n %d 0 (if 0))", tparamBase+t.ID)
+	case "gn": // G[arg]: a defined type over the instantiated struct { V arg; P *arg }
+		return fmt.Sprintf("(n %d 0 (st (%s (p %s))))", gnBase, t.E[0].Sexp(), t.E[0].Sexp())
 	}
 	panic("bad Ty " + t.K)
 }
@@ -122,6 +126,10 @@ func (t *Ty) Comparable() bool {
 		}
 	case "tup":
 		return false
+	case "tp":
+		return t.N == 1
+	case "gn":
+		return t.E[0].Comparable()
 	}
 	return true
 }
@@ -249,6 +257,11 @@ func (t *Ty) Src(decls map[int]string) string {
 		return "interface{ " + strings.Join(ms, "; ") + " }"
 	case "err":
 		return "error"
+	case "tp":
+		return fmt.Sprintf("T%d", t.ID)
+	case "gn":
+		decls[gnBase] = "type G[A any] struct {\n\tV A\n\tP *A\n}\n"
+		return "G[" + t.E[0].Src(decls) + "]"
 	}
 	panic("no source form for " + t.K)
 }
@@ -366,7 +379,21 @@ func (c *Case) Source() string {
 	for _, h := range helpers {
 		b.WriteString(h)
 	}
-	fmt.Fprintf(&b, "\nfunc use() {\n\t%s(%s)\n%s}\n", prefix[c.Plugin], strings.Join(args, ", "), second)
+	tps := map[int]*Ty{}
+	for _, a := range c.Args {
+		a.tparams(tps)
+	}
+	header := ""
+	if len(tps) > 0 { // the call sits in a generic function (tparam.go)
+		var l []string
+		for k := 0; k < 8; k++ {
+			if tp, ok := tps[k]; ok {
+				l = append(l, fmt.Sprintf("T%d %s", k, []string{"any", "comparable"}[tp.N]))
+			}
+		}
+		header = "[" + strings.Join(l, ", ") + "]"
+	}
+	fmt.Fprintf(&b, "\nfunc use%s() {\n\t%s(%s)\n%s}\n", header, prefix[c.Plugin], strings.Join(args, ", "), second)
 	return b.String()
 }
 
